@@ -110,7 +110,13 @@ func checkBuild(w WS, o BuildOpts, p Prediction, res Result, sb *Sandbox, expect
 			}
 			t := w.Target(l)
 			if t != nil {
-				for _, d := range w.EffectiveDeps(t) {
+				// under load_outputs=minimal only DIRECT dependencies are brought back before a target runs; one that is
+				// reached through a grouping target may be a skipped cache hit now and be re-run later for somebody else
+				deps := w.EffectiveDeps(t)
+				if o.LoadOutputs == "minimal" {
+					deps = w.DirectDeps(t)
+				}
+				for _, d := range deps {
 					if res.Started[d] > 0 {
 						if _, ok := endedAt[d]; !ok {
 							return pbt.Fail(sig("C03", "started-before-dependency-finished"), "%s started (event %d) before its dependency %s finished%s", l, i, d, tail())
